@@ -129,7 +129,13 @@ pub fn run(ctx: &mut Ctx) {
         let sched: Vec<usize> = (0..rng.range_usize(1, 6)).map(|_| rng.range_usize(1, 40)).collect();
         ctx.op("locate_sourcemap_reference_slice");
         ctx.op("locate_sourcemap_reference(reader)");
-        let r = catch(|| (conv(locate_sourcemap_reference_slice(text.as_bytes())), conv(locate_sourcemap_reference(Chunked::new(text.as_bytes(), &sched)))));
+        let r = catch(|| {
+            let via_view = conv(sourcemap::SourceView::new(text.as_str().into()).sourcemap_reference());
+            let slice = conv(locate_sourcemap_reference_slice(text.as_bytes()));
+            // the SourceView accessor is documented as the same discovery: fold a disagreement into the slice result
+            let slice = if via_view == slice { slice } else { Err(format!("SourceView::sourcemap_reference gives {via_view:?}, locate_sourcemap_reference_slice gives {slice:?}")) };
+            (slice, conv(locate_sourcemap_reference(Chunked::new(text.as_bytes(), &sched))))
+        });
         let data = || json!({"text": text, "chunks": sched});
         match r {
             Err(p) => ctx.violation(&panic_sig(&p), "texts", n, format!("locate panicked: {p}"), data()),
